@@ -52,7 +52,7 @@ META = dict(
               '(==, !=, hash, set/dict membership) of a pool of constructed '
               'equivalents and single-attribute mutants; copy-independence '
               'monitor with strict structural fingerprints; sys.monitoring '
-              'reach counters',
+              'reach counters; thorough tier also checks eq=>hash, symmetry and != on every __eq__ evaluation between CIM objects while the repository\'s own unit tests run (sys.monitoring PY_RETURN hook on __eq__)',
     level_text='Seeded generation of NaN-free objects of the 11 kinds; for '
                'each a pool of documented-equal objects (case, order, numeric '
                'width; composed twice for transitivity), single-attribute '
@@ -168,7 +168,59 @@ def post_run(tier, seed, workdir):
     if not eh.get('pairs'):
         out['inconclusive'] = ['the eq/hash monitor saw no object pair '
                                'during the repository tests']
+    # second stage: the copy laws on the objects those tests construct
+    from vf.harvest import judge_harvest
+    hv = judge_harvest('C05', tier, seed, workdir, _judge_harvested,
+                       list(HARVEST_KIND), setup=_harvest_setup)
+    for k in ('events', 'extra'):
+        out[k].update(hv.get(k, {}))
+    out['violations'] += hv.get('violations', [])
+    counts = dict(hv.get('viol_counts', {}))
+    for v in out['violations']:
+        if 'harvested' not in v:
+            counts[v['key']] = counts.get(v['key'], 0) + 1
+    out['viol_counts'] = counts
+    if hv.get('inconclusive'):
+        out.setdefault('inconclusive', []).extend(hv['inconclusive'])
     return out
+
+
+HARVEST_KIND = {'CIMInstanceName': 'instancename', 'CIMClassName': 'classname',
+                'CIMInstance': 'instance', 'CIMClass': 'class',
+                'CIMProperty': 'property', 'CIMMethod': 'method',
+                'CIMParameter': 'parameter', 'CIMQualifier': 'qualifier',
+                'CIMQualifierDeclaration': 'qualifierdecl',
+                'CIMDateTime': 'datetime'}
+
+
+def _harvest_setup(ctx):
+    warnings.simplefilter('ignore')
+
+
+def _judge_harvested(ctx, cls, obj):
+    """copy(), copy.copy, deepcopy and pickle of an object that the
+    repository's tests constructed: equal to the original, and independent of
+    it under one-at-a-time mutations."""
+    import random
+    from vf.harvest import in_domain
+    if not in_domain(obj, []) or has_nan(FP(obj)):
+        ctx.outcome('harvested-outside-domain')
+        ctx.count('outside-domain')
+        return
+    kind = HARVEST_KIND[cls]
+    if cls == 'CIMParameter' and obj.value is not None:
+        kind = 'parameter_value'
+    rng = random.Random(repr(obj))
+    ctx.cls('harvested/' + kind)
+    check_copies(ctx, rng, kind, obj,
+                 {'kind': kind, 'origin': 'harvested from the repository '
+                  'tests', 'base': short(repr(obj), 1500)})
+    ctx.outcome('harvested-copies-checked')
+
+
+def replay_harvested(ctx, rec):
+    from vf.harvest import replay_harvested as rh
+    rh(ctx, rec, _judge_harvested)
 
 def setup_worker(ctx):
     warnings.simplefilter('ignore')
